@@ -17,7 +17,9 @@ def fs_effects(ctx, job):
     scen = [("plain", ["out/mod.c"], []), ("nested_dot_dir", ["out.v1/sub/mod"], []), ("clean", ["out/mod.c"], ["-c"]), ("clean_files", ["out/mod.c"], ["-c", "-f", "2"]),
             ("gnuld", ["out/mod.c"], ["-d", "gnu-ld"]), ("pm", ["out/m.x.c"], ["-p", "-m"]),
             # the output directory does not exist: the run fails, and the decoys (here placed in the STARTING directory) are neither overwritten nor deleted
-            ("missing_dir", ["nodir/mod.c"], ["-c", "-f", "2"])]
+            ("missing_dir", ["nodir/mod.c"], ["-c", "-f", "2"]),
+            # a reference module given with -r is only read (it and the input stay untouched; the outputs go where OUTPUT says)
+            ("reference", ["out/mod.c"], ["-r", "ref.wasm", "-f", "2"])]
     for name, (outp,), opts in [(a, b, c) for a, b, c in scen]:
         root = os.path.dirname(ctx.path("fs", name, "x"))
         od = os.path.join(root, os.path.dirname(outp)) if name != "missing_dir" else root
@@ -33,6 +35,8 @@ def fs_effects(ctx, job):
         else:
             wasm_bytes_s = wasm_bytes
         open(os.path.join(root, "in.wasm"), "wb").write(wasm_bytes_s)
+        if name == "reference":
+            open(os.path.join(root, "ref.wasm"), "wb").write(wasm_bytes_s)
         open(os.path.join(root, "other.c"), "w").write("outside")
         before = {}
         for dp, dn, fn in os.walk(root):
@@ -81,7 +85,7 @@ def make_jobs(ctx):
     ]
     for j in jobs:
         j.defines = [d for d in j.defines if not (d.startswith("HAS_LIBGEN=1") and "HAS_LIBGEN=0" in j.defines)]
-    b = Job("B.fs_effects", src=None, solver="static", funcs=["w2c2 binary: main + c.c file effects"], bounded="7 scenarios x 14 decoy names (directory snapshot before/after on the real binary)",
+    b = Job("B.fs_effects", src=None, solver="static", funcs=["w2c2 binary: main + c.c file effects"], bounded="8 scenarios x 14 decoy names (directory snapshot before/after on the real binary)",
             info=dict(layer="bounded corroboration on the real binary"))
     b.static_fn = fs_effects
     jobs.append(b)
